@@ -31,6 +31,10 @@ clauses
   tzero-energy        Temp = 0: Ek+Ep never exceeds its running minimum by more than twice the NVE fluctuation amplitude
                       of the companion run + 1e3 eps, and ends below its start
   calls               thermostat calls per integrator step: exactly 2 (first and last event of the step) iff damp is set
+  firstnoise-*        seeded FRESH runs with driver-sampled velocities (48 CH4 + 48 padded H2O in one batch, dt/tau 0.5; Langevin, damped XL /
+                      KSA): the first noise vector xi (recovered from the first real half-step with the live c1, c2) is independent of the
+                      initial velocities: z = xi.u/|u| ~ N(0,1) exactly, |z| <= 7.2; sum xi^2 ~ chi2(N); Ek_after/Ek_before within 7.2 sigma
+                      of the OU expectation
   comrem-Ek           thermostatted engines (Langevin, damped XL / KSA, surface hopping) run with remove_com=('linear'|'angular', n): every
                       periodic _zero_com call leaves each molecule's kinetic energy unchanged (1e-12; the drivers keep n_dof = 3N, so
                       the removed COM / rotational energy must be given back) -- and the meanT clauses hold with stride 1..10
@@ -58,7 +62,7 @@ ASSUMPTIONS = ["float64 CPU", "statistical clauses: per-test alpha = 1e-12 (exac
                "point nothing is left after COM + rotation removal and _zero_com raises 'Zero kinetic energy after removing COM momentum' "
                "(observed on the unchanged tree with 128 H2 x 400 steps; reported as an observation, not judged here)"]
 REQUIRED_MONITORS = ["identity_atoms", "identity_engines", "identity_reuse", "meanT_reused_driver", "stat_tests", "thermostat_updates", "meanT_samples", "tauinf_pairs",
-                     "tzero_hook_calls", "call_steps_damped", "call_steps_undamped", "resumed_steps_damped", "resumed_steps_undamped", "comrem_ke_events"]
+                     "tzero_hook_calls", "call_steps_damped", "call_steps_undamped", "resumed_steps_damped", "resumed_steps_undamped", "comrem_ke_events", "first_noise_correlated_runs"]
 CASE_TIMEOUT = 1500.0
 BUDGET_S = {"quick": 200, "thorough": 1700}
 ALPHA = 1e-12
@@ -131,6 +135,9 @@ def gen_cases(tier, seed):
         for damp in ((None, 7.0) if eng not in ("basic", "langevin") else ((None,) if eng == "basic" else (7.0,))):
             cases.append({"kind": "calls", "engine": eng, "damp": damp, "steps": 3, "mols": ["H2O", "CH2O"] if eng != "sh" else ["CH2O"],
                           "seed": s(), "geom_seed": s()})
+    for i in range(3 if q else 8):
+        cases.append({"kind": "firstnoise", "engine": ["langevin", "xl", "langevin", "ksa"][i % 4], "nCH4": 48, "nH2O": 48, "dt": 0.5, "tau": 1.0,
+                      "T": [300.0, 600.0, 150.0][i % 3], "seed": s() % 10 ** 6, "geom_seed": s()})
     for eng, rc in (("langevin", ["angular", 1]), ("xl", ["linear", 1]), ("ksa", ["angular", 1]), ("sh", ["linear", 2]), ("langevin", ["linear", 3])):
         cases.append({"kind": "calls", "engine": eng, "damp": 7.0, "steps": 4, "remove_com": rc,
                       "mols": ["H2O", "CH2O"] if eng != "sh" else ["CH2O"], "seed": s(), "geom_seed": s()})
@@ -138,7 +145,7 @@ def gen_cases(tier, seed):
         for damp in damps:
             cases.append({"kind": "resumed", "engine": eng, "damp": damp, "steps": 5, "ckpt": 2, "T": 250.0, "dt": 0.3,
                           "mols": ["H2O", "CH2O"] if eng != "sh" else ["CH2O"], "seed": s(), "geom_seed": s()})
-    order = {"meanT": 0, "tzero": 1, "tauinf": 2, "identity": 3, "ensemble": 4, "calls": 5, "resumed": 5}
+    order = {"meanT": 0, "tzero": 1, "tauinf": 2, "identity": 3, "ensemble": 4, "calls": 5, "resumed": 5, "firstnoise": 4}
     cases.sort(key=lambda c: order[c["kind"]])
     return cases
 
@@ -685,6 +692,76 @@ def _calls(case):
     return acc.result(len(steps) > 0, {"engine": eng, "damp": damp, "per_step_events": ["".join(e) for e in steps]})
 
 
+def _firstnoise(case):
+    """seeded FRESH run with driver-sampled velocities, many replicas in one padded batch: the first thermostat noise vector must be
+    independent of the initial velocities.  xi is recovered from the first real half-step update, xi = (v_after - c1 v_before)/c2 with
+    the live coefficients; u = v_before sqrt(m/(kB T)).  z = xi.u/|u| is exactly N(0,1) under independence (|z| <= 7.2), and
+    Ek_after/Ek_before follows the OU expectation c1^2 + (1-c1^2) N kT/(2 Ek_before) within 7.2 sigma."""
+    from vlib import env, md, run
+
+    acc = _Acc()
+    g = np.random.default_rng(case["geom_seed"])
+    mols = []
+    for name, cnt in (("CH4", case["nCH4"]), ("H2O", case["nH2O"])):
+        Z, X, _, _ = gen.molecule(name)
+        for _i in range(cnt):
+            mols.append((Z, X @ gen.generic_rotation(X, g).T))
+    S, C = gen.pad_batch(mols)
+    eng = case["engine"]
+    sett, xl = _engine_args(eng, "AM1")
+    sett["scf_eps"] = 1e-6
+    T, dt, tau = case["T"], case["dt"], case["tau"]
+    cap = {}
+
+    def pre_run(mol, mdo):
+        orig = mdo._apply_langevin_thermostat
+
+        def thermo(molecule, *a, **k):
+            first = "vb" not in cap
+            if first:
+                cap["vb"] = molecule.velocities.detach().cpu().numpy().copy()
+            r = orig(molecule, *a, **k)
+            if first:
+                cap["va"] = molecule.velocities.detach().cpu().numpy().copy()
+                cap["c1"], cap["c2"] = _live_c(mdo, molecule)
+                cap["mass"] = molecule.mass.detach().cpu().numpy()[..., 0]
+            return r
+
+        mdo._apply_langevin_thermostat = thermo
+
+    with env.Scratch("c12") as d:
+        rec = md.run_md(eng, S, C, sett, dt, T, 1, d + "/f", molid=[0], damp=tau, xl=xl, seed=case["seed"], pre_run=pre_run,
+                        out_kw=dict(coordinates=0, velocities=0, forces=0))
+    if rec["error"]:
+        return {"inconclusive": "%s run raised: %s" % (eng, rec["error"][:300])}
+    if "va" not in cap:
+        return {"inconclusive": "no thermostat call observed"}
+    real = np.asarray(S) > 0
+    c1, c2, mass = cap["c1"], cap["c2"], cap["mass"]
+    kb = _kb_live()
+    vb, va = cap["vb"][real], cap["va"][real]  # [n_real, 3]
+    c2r, mr = c2[real][:, None], mass[real][:, None]
+    xi = (va - c1 * vb) / c2r
+    u = vb * np.sqrt(mr / (kb * T))
+    N = xi.size
+    z = float((xi * u).sum() / math.sqrt((u * u).sum()))
+    zn = float(((xi * xi).sum() - N) / math.sqrt(2.0 * N))  # the recovered noise is unit normal
+    ekb, eka = float(0.5 * (mr * vb * vb).sum()), float(0.5 * (mr * va * va).sum())
+    s2 = 1.0 - c1 * c1
+    expect = c1 * c1 + s2 * (0.5 * N * kb * T) / ekb
+    sd = math.sqrt(c1 * c1 * s2 * float((u * u).sum()) + 0.5 * s2 * s2 * N) * kb * T / ekb
+    det = {"engine": eng, "seed": case["seed"], "N": N, "corr": z / math.sqrt(N), "z": z, "Ek_ratio": eka / ekb, "Ek_ratio_expected": expect,
+           "Ek_ratio_sigma": sd, "dt_over_tau": dt / tau}
+    acc.upd("firstnoise-correlation", abs(z), Z_MEAN, det)
+    acc.upd("firstnoise-unit-variance", abs(zn), Z_MEAN, det)
+    acc.upd("firstnoise-Ek-ratio", abs(eka / ekb - expect), Z_MEAN * sd, det)
+    acc.flag("firstnoise-padding", bool(np.any(cap["va"][~real] != 0.0)), det)
+    acc.mon["stat_tests"] += 3
+    acc.mon["first_noise_correlated_runs"] += 1
+    acc.cells.append("firstnoise/%s/T%g" % (eng, T))
+    return acc.result(True, det)
+
+
 class _SimulatedCrash(RuntimeError):
     pass
 
@@ -800,6 +877,8 @@ def _resumed(case):
 def run_case(case):
     if case["kind"] == "resumed":
         return _resumed(case)
+    if case["kind"] == "firstnoise":
+        return _firstnoise(case)
     return {"identity": _identity, "ensemble": _ensemble, "meanT": _meanT, "tauinf": _tauinf, "tzero": _tzero,
             "calls": _calls}[case["kind"]](case)
 
